@@ -72,6 +72,21 @@ def materialise(case):
             for f in s["features"]:
                 f["quals"]["uid"] = [f["quals"]["uid"][0].replace(s["id"] + ".", new + ".")]
             s["id"] = s["name"] = new
+        # own stream: two modules that follow each other in the chain carry the same id and name (two products of earlier
+        # assemblies, both still called "assembly"; two exports called alike), or one input has a name outside ASCII
+        rs_ = gen.rng_for(case["seed"], PROP, "shared-and-foreign-ids", case["i"])
+        u = rs_.random()
+        if u < 0.15 and len(m["chain"]) >= 2:
+            j = rs_.randrange(len(m["chain"]) - 1)
+            a, b = m["modules"][m["chain"][j]], m["modules"][m["chain"][j + 1]]
+            if rs_.random() < 0.5:
+                a["id"] = a["name"] = "assembly"
+            b["id"], b["name"] = a["id"], a["name"]
+            m["shared_input_ids"] = True
+        elif u < 0.30:
+            s_ = rs_.choice([m["vector"]] + m["modules"])
+            s_["id"] = s_["name"] = rs_.choice(["p\u03bb", "pl\u00e4smid", "\u0394lac", "p\u00c9co"]) + s_["id"][:8]
+            m["foreign_input_id"] = True
         if rng.random() < 0.3:
             # a supplied module that chains nowhere: it is left out with a warning but must still be named in the comment
             geom = refmodel.geometry(gen.enzyme(m["enzyme"]))
@@ -249,6 +264,10 @@ def _execute(mat, ctx):
             ctx.count("c09_renamed_after_wrapping")
         if mat.get("has_unused"):
             ctx.count("c09_with_unused_module")
+        if mat.get("shared_input_ids"):
+            ctx.count("c09_with_neighbouring_modules_sharing_an_id")
+        if mat.get("foreign_input_id"):
+            ctx.count("c09_with_non_ascii_input_id")
         sig = [mat["enzyme"], mat["vector"]["seq"], [m["seq"] for m in mat["modules"]], mat["id"]]
         sample = {"kind": "generated", "enzyme": mat["enzyme"], "id": mat["id"], "name": mat["name"], "input_ids": [mat["vector"]["id"]] + [m["id"] for m in mat["modules"]]}
         if res["outcome"] != "product":
